@@ -9,8 +9,8 @@ import tempfile
 from lib import tlc
 from lib.evidence import Report
 
-KINDS = ['sdc', 'mssdc', 'errest', 'logs', 'mlsdc', 'pfasst']
-FAM = {'sdc': 'test', 'mssdc': 'test', 'errest': 'test', 'logs': 'test', 'mlsdc': 'heat', 'pfasst': 'heat'}
+KINDS = ['sdc', 'mssdc', 'errest', 'logs', 'etol', 'getdef', 'mlsdc', 'pfasst']
+FAM = {'sdc': 'test', 'mssdc': 'test', 'errest': 'test', 'logs': 'test', 'etol': 'test', 'getdef': 'test', 'mlsdc': 'heat', 'pfasst': 'heat'}
 
 
 def enumerate_histories(wd, maxops, simulate=None, seed=0):
@@ -39,7 +39,7 @@ def run(tier, seed):
     rep = Report('C19', tier, seed)
     rep.assumptions = ['each history is executed in a freshly forked interpreter in which no controller exists yet; equal reference terms '
                        'must give bit-identical solutions (sha1 of dtype, shape, bytes) and statistics (all entries except timing types)',
-                       'kinds: SDC 1 step, MSSDC 3 steps Gauss-Seidel, 2 steps with EstimateEmbeddedError + LogEmbeddedErrorEstimate (extra status '
+                       'kinds: increment-based termination (e_tol, extra level status variables), 2 steps with a user hook reading an optional status variable with a fallback, SDC 1 step, MSSDC 3 steps Gauss-Seidel, 2 steps with EstimateEmbeddedError + LogEmbeddedErrorEstimate (extra status '
                        'variables and hooks), 2 steps with LogSolution + LogWork, MLSDC 2 levels, PFASST 2 levels x 3 steps with burn-in; fixed step '
                        'size; segments [0,6],[6,12],[0,12] in units of dt=1/16 (block aligned for every kind, exact binary floats)']
     rep.rule = ('cases = histories (New / Run operations over two controllers) enumerated by TLC; non-trivial = history in which some '
